@@ -16,8 +16,181 @@ KEY_PREDICATES = {
     "IsBisyncRdbRecordKey": "{ return strings.HasPrefix(key, BisyncKeyPrefix+\":\") && strings.Contains(key, \":rdb:{\") }",
 }
 
+# facts about every place the tool writes to the target on the bidirectional path (harness/extract/c13.go); the Lean
+# inventory Proofs/BisyncWriters.lean `Writer` and Model/BisyncNames.lean were read from exactly this code
+C13_WRITER_FACTS = {'c13_all_writers': {'cmd/syncer.go:SyncerCmd.clusterCampaign': ['Campaign()'],
+                     'cmd/syncer.go:SyncerCmd.gcStaleCheckpoint': ['DelStaleCheckpoint()', 'DelCheckpointHash()'],
+                     'cmd/syncer.go:SyncerCmd.runCluster': ['Resign()'],
+                     'cmd/syncer_api.go:SyncerCmd.delCheckpoints': ['DelCheckpoint()'],
+                     'cmd/syncer_api.go:SyncerCmd.flushdb': ['Do(flushCmd…)'],
+                     'cmd/syncer_api.go:SyncerCmd.fullSyncHandler': ['takeover()', 'flushdb()'],
+                     'cmd/syncer_api.go:SyncerCmd.takeover': ['Do(req…)', 'takeover()', 'takeover()'],
+                     'pkg/cluster/redis_cluster.go:redisCluster.Register': ['Do("set"×4)', 'Do("set"×4)', 'Do("del"×1)'],
+                     'pkg/cluster/redis_election.go:redisElection.Campaign': ['Do("eval"×5)'],
+                     'pkg/cluster/redis_election.go:redisElection.Renew': ['Campaign()'],
+                     'pkg/cluster/redis_election.go:redisElection.Resign': ['Do("eval"×5)'],
+                     'pkg/redis/checkpoint/bisync.go:DeleteBisyncCommitKeys': ['Put("del"×1)', 'flush()', 'flush()'],
+                     'pkg/redis/checkpoint/bisync.go:SaveBisyncFrontierSnapshot': ['Do("hset"×…)'],
+                     'pkg/redis/checkpoint/bisync.go:SaveBisyncNamespaceMode': ['Do("hset"×5)'],
+                     'pkg/redis/checkpoint/checkpoint.go:DelCheckpoint': ['DelCheckpoints()'],
+                     'pkg/redis/checkpoint/checkpoint.go:DelCheckpointHash': ['HDel()'],
+                     'pkg/redis/checkpoint/checkpoint.go:DelCheckpoints': ['Do("hdel"×5)'],
+                     'pkg/redis/checkpoint/checkpoint.go:DelStaleCheckpoint': ['Do("hdel"×…)'],
+                     'pkg/redis/checkpoint/checkpoint.go:ResolveOrCreateBisyncCheckpointName': ['Do("hsetnx"×3)'],
+                     'pkg/redis/checkpoint/checkpoint.go:SetCheckpoint': ['Do("hset"×…)'],
+                     'pkg/redis/checkpoint/checkpoint.go:SetCheckpointHash': ['HSet()'],
+                     'pkg/redis/checkpoint/checkpoint.go:UpdateCheckpoint': ['SetCheckpoint()',
+                                                                             'SetCheckpointHash()',
+                                                                             'DelCheckpoint()',
+                                                                             'DelCheckpointHash()'],
+                     'pkg/redis/redis_lock.go:SRedisLocker.Lock': ['Do("set"×5)'],
+                     'pkg/redis/redis_lock.go:SRedisLocker.Renew': ['Do("eval"×5)'],
+                     'pkg/redis/redis_lock.go:SRedisLocker.Unlock': ['Do("eval"×4)'],
+                     'pkg/redis/util.go:HDel': ['Do("hdel"×2)', 'Do("hdel"×…)'],
+                     'pkg/redis/util.go:HSet': ['Do("hset"×…)'],
+                     'pkg/redis/util.go:hset': ['Do("hset"×3)'],
+                     'pkg/redis/util.go:lpush': ['Do("lpush"×2)'],
+                     'pkg/redis/util.go:rpush': ['Do("rpush"×2)'],
+                     'pkg/redis/util.go:sadd': ['Do("sadd"×2)'],
+                     'pkg/redis/util.go:set': ['Do("set"×2)'],
+                     'pkg/redis/util.go:zadd': ['Do("zadd"×3)'],
+                     'syncer/bisync.go:RedisOutput.bisyncStartPoint': ['purgeBisyncRecoveryState()', 'cleanupRecoveredBisyncCommitRecords()'],
+                     'syncer/bisync.go:RedisOutput.cleanupRecoveredBisyncCommitRecords': ['SaveBisyncFrontierSnapshot()',
+                                                                                          'DeleteBisyncCommitKeys()',
+                                                                                          'Put("zrem"×…)'],
+                     'syncer/bisync.go:RedisOutput.dispatchBisyncPipeline': ['dispatchBisyncUnit()'],
+                     'syncer/bisync.go:RedisOutput.dispatchBisyncUnit': ['Put("set"×4)', 'Put(cmd.Cmd…)', 'Put("hset"×…)', 'Put("zadd"×3)'],
+                     'syncer/bisync.go:RedisOutput.execBisyncUnit': ['dispatchBisyncUnit()'],
+                     'syncer/bisync.go:RedisOutput.purgeBisyncRecoveryState': ['DeleteBisyncCommitKeys()', 'Put("zrem"×…)', 'Do("del"×1)'],
+                     'syncer/bisync.go:RedisOutput.receiveBisyncPipeline': ['flush()'],
+                     'syncer/bisync.go:RedisOutput.sendBisyncParallel': ['dispatchBisyncUnit()', 'flush()', 'flush()', 'flush()'],
+                     'syncer/bisync.go:RedisOutput.sendBisyncPipeline': ['flush()'],
+                     'syncer/bisync.go:RedisOutput.sendBisyncSync': ['execBisyncUnit()'],
+                     'syncer/bisync.go:bisyncFrontierCoordinator.flush': ['SaveBisyncFrontierSnapshot()', 'DeleteBisyncCommitKeys()', 'Put("zrem"×…)'],
+                     'syncer/bisync.go:bisyncFrontierCoordinator.onCommitted': ['flush()'],
+                     'syncer/bisync_rdb.go:RedisOutput.execBisyncRdbGlobalUnit': ['execBisyncRdbUnit()'],
+                     'syncer/bisync_rdb.go:RedisOutput.execBisyncRdbUnit': ['Put("set"×4)', 'Put(cmd.Cmd…)'],
+                     'syncer/bisync_rdb.go:RedisOutput.rdbReplayBisync': ['execBisyncRdbUnit()'],
+                     'syncer/channel.go:StoreChannel.SetRunId': ['SetRunId()'],
+                     'syncer/input.go:RedisInput.Run': ['checkSyncDelay()'],
+                     'syncer/input.go:RedisInput.checkSyncDelay': ['Do("set"×2)'],
+                     'syncer/input.go:RedisInput.sendOutput': ['ResetStartPoint()'],
+                     'syncer/input.go:RedisInput.syncMeta': ['SetRunId()', 'ResetStartPoint()', 'SetRunId()'],
+                     'syncer/output.go:RedisOutput.ResetStartPoint': ['DelCheckpoints()', 'purgeBisyncRecoveryState()', 'DeleteBisyncCommitKeys()'],
+                     'syncer/output.go:RedisOutput.SetRunId': ['UpdateCheckpoint()'],
+                     'syncer/output.go:RedisOutput.sendAof': ['sendCmdsBatch()'],
+                     'syncer/output.go:RedisOutput.sendCmdsBatch': ['Put("multi"×0)',
+                                                                    'Put(ce.Cmd…)',
+                                                                    'Put("exec"×0)',
+                                                                    'Put("multi"×0)',
+                                                                    'Put("hset"×5)',
+                                                                    'Put("hset"×3)',
+                                                                    'Put("exec"×0)'],
+                     'syncer/output.go:RedisOutput.sendRdb': ['setCheckpoint()'],
+                     'syncer/output.go:RedisOutput.setCheckpoint': ['SetCheckpoint()'],
+                     'syncer/replica.go:ReplicaFollower.aofSync': ['SetRunId()'],
+                     'syncer/replica.go:ReplicaFollower.preSync': ['SetRunId()', 'SetRunId()'],
+                     'syncer/replica.go:ReplicaFollower.rdbSync': ['SetRunId()'],
+                     'syncer/syncer.go:deleteBisyncKeysInChunks': ['Do("del"×…)', 'flush()', 'flush()'],
+                     'syncer/syncer.go:syncer.cleanupBisyncNamespace': ['deleteBisyncKeysInChunks()',
+                                                                        'DeleteBisyncCommitKeys()',
+                                                                        'deleteBisyncKeysInChunks()',
+                                                                        'deleteBisyncKeysInChunks()'],
+                     'syncer/syncer.go:syncer.resolveBisyncCheckpointNameWithClient': ['ResolveOrCreateBisyncCheckpointName()',
+                                                                                       'SaveBisyncNamespaceMode()',
+                                                                                       'SaveBisyncNamespaceMode()',
+                                                                                       'SaveBisyncNamespaceMode()',
+                                                                                       'SaveBisyncNamespaceMode()',
+                                                                                       'seedBisyncNamespace()',
+                                                                                       'SetCheckpointHash()',
+                                                                                       'DelCheckpointHash()',
+                                                                                       'cleanupBisyncNamespace()'],
+                     'syncer/syncer.go:syncer.seedBisyncNamespace': ['SetCheckpoint()',
+                                                                     'SaveBisyncFrontierSnapshot()',
+                                                                     'Do("hset"×…)',
+                                                                     'SaveBisyncNamespaceMode()'],
+                     'syncer/syncer.go:syncer.updateCheckpoint': ['UpdateCheckpoint()']},
+ 'c13_aof_dispatch': ['if ro.bisyncEnabled() { return ro.sendAofBisync(ctx, runId, reader, offset, nsize) }', 'guard-before-plain-path'],
+ 'c13_cphash_writes': ['pkg/redis/checkpoint/checkpoint.go:ResolveOrCreateBisyncCheckpointName:"hsetnx" name=candidate',
+                       'pkg/redis/checkpoint/checkpoint.go:SetCheckpointHash:HSet name=cpName',
+                       'pkg/redis/checkpoint/checkpoint.go:UpdateCheckpoint:SetCheckpointHash name=localCheckpoint',
+                       'syncer/syncer.go:resolveBisyncCheckpointNameWithClient:SetCheckpointHash name=newCheckpointName'],
+ 'c13_first_put': {'dispatchBisyncUnit': '"set" []byte(checkpoint.BisyncMarkerKey(checkpointName, unit.SlotTag))',
+                   'execBisyncRdbUnit': '"set" []byte(checkpoint.BisyncMarkerKey(checkpointName, unit.SlotTag))'},
+ 'c13_localcheckpoint': ['newOutput:localCheckpoint, err = s.resolveBisyncCheckpointName(wait, []string{id1, id2}, outputCfg.ReplayMode)',
+                         'newOutput:localCheckpoint = choseKeyInSlots(config.CheckpointKey, s.cfg.Output.GetAllSlots())',
+                         'newOutput:localCheckpoint = config.CheckpointKey'],
+ 'c13_multi_put_sites': ['pkg/redis/client/cluster/txn_batcher.go:sendOnce:conn.send("exec")',
+                         'pkg/redis/client/cluster/txn_batcher.go:sendOnce:conn.send("multi")',
+                         'pkg/redis/client/conn/redis_conn.go:Dispatch:tb.conn.send("exec")',
+                         'pkg/redis/client/conn/redis_conn.go:Dispatch:tb.conn.send("multi")',
+                         'syncer/output.go:sendCmdsBatch:batcher.Put("exec")',
+                         'syncer/output.go:sendCmdsBatch:batcher.Put("exec")',
+                         'syncer/output.go:sendCmdsBatch:batcher.Put("multi")',
+                         'syncer/output.go:sendCmdsBatch:batcher.Put("multi")'],
+ 'c13_target_writes': {'DelCheckpoint': [],
+                       'DelCheckpointHash': ['redis.HDel(cli, config.CheckpointKeyHashKey, runId)'],
+                       'DelStaleCheckpoint': ['cli.Do("hdel", fields...)'],
+                       'DeleteBisyncCommitKeys': ['batcher.Put("del", key)', 'flush()', 'flush()'],
+                       'ResetStartPoint': ['ro.purgeBisyncRecoveryState(cli, ro.cfg.CheckpointName, slots, ids)',
+                                           'checkpoint.DeleteBisyncCommitKeys(cli, latest)'],
+                       'ResolveOrCreateBisyncCheckpointName': ['cli.Do("hsetnx", config.CheckpointKeyHashKey, runIds[0], candidate)'],
+                       'SaveBisyncFrontierSnapshot': ['cli.Do("hset", args...)'],
+                       'SaveBisyncNamespaceMode': ['cli.Do("hset", checkpointName, bisyncNamespaceFieldMode, string(mode), bisyncNamespaceFieldMTime, '
+                                                   'strconv.FormatInt(time.Now().UnixNano(), 10), )'],
+                       'SetCheckpoint': ['cli.Do("hset", kvs...)'],
+                       'SetCheckpointHash': ['redis.HSet(cli, config.CheckpointKeyHashKey, runId, cpName)'],
+                       'SetRunId': ['checkpoint.UpdateCheckpoint(cli, ro.cfg.CheckpointName, []string{id, ro.cfg.RunId})'],
+                       'UpdateCheckpoint': ['SetCheckpoint(outCli, cpKv)',
+                                            'SetCheckpointHash(outCli, id1, localCheckpoint)',
+                                            'DelCheckpoint(outCli, cpName, oldId)',
+                                            'DelCheckpointHash(outCli, oldId)'],
+                       'bisyncStartPoint': ['ro.purgeBisyncRecoveryState(cli, checkpointName, slots, runIDs)',
+                                            'ro.cleanupRecoveredBisyncCommitRecords(cli, checkpointName, frontier, records)'],
+                       'cleanupBisyncNamespace': ['deleteBisyncKeysInChunks(cli, commitKeys, 256)',
+                                                  'checkpoint.DeleteBisyncCommitKeys(cli, markerKeys)',
+                                                  'deleteBisyncKeysInChunks(cli, slotKeys, 256)',
+                                                  'deleteBisyncKeysInChunks(cli, rootKeys, 256)'],
+                       'cleanupRecoveredBisyncCommitRecords': ['checkpoint.SaveBisyncFrontierSnapshot(cli, checkpoint.BisyncFrontierKey(checkpointName), '
+                                                               'frontier)',
+                                                               'checkpoint.DeleteBisyncCommitKeys(cli, keys)',
+                                                               'batcher.Put("zrem", args...)'],
+                       'deleteBisyncKeysInChunks': ['cli.Do("del", args...)', 'flush()', 'flush()'],
+                       'dispatchBisyncUnit': ['batcher.Put("set", []byte(checkpoint.BisyncMarkerKey(checkpointName, unit.SlotTag)), []byte(markerValue), '
+                                              '[]byte("px"), []byte(strconv.FormatInt(checkpoint.BisyncMarkerTTL.Milliseconds(), 10)))',
+                                              'batcher.Put(cmd.Cmd, bisyncArgsToInterfaces(cmd.Args)...)',
+                                              'batcher.Put("hset", args...)',
+                                              'batcher.Put("zadd", []byte(checkpoint.BisyncCommitIndexKey(checkpointName, unit.SlotTag)), '
+                                              '[]byte(strconv.FormatInt(unit.Seq, 10)), []byte(record.Key))'],
+                       'execBisyncRdbUnit': ['batcher.Put("set", []byte(checkpoint.BisyncMarkerKey(checkpointName, unit.SlotTag)), []byte(markerValue), '
+                                             '[]byte("px"), []byte(strconv.FormatInt(checkpoint.BisyncMarkerTTL.Milliseconds(), 10)), )',
+                                             'batcher.Put(cmd.Cmd, bisyncArgsToInterfaces(cmd.Args)...)'],
+                       'flush': ['checkpoint.SaveBisyncFrontierSnapshot(fc.conn, fc.key, &fc.frontier)',
+                                 'checkpoint.DeleteBisyncCommitKeys(fc.conn, keys)',
+                                 'batcher.Put("zrem", args...)'],
+                       'purgeBisyncRecoveryState': ['checkpoint.DeleteBisyncCommitKeys(cli, keys)',
+                                                    'batcher.Put("zrem", args...)',
+                                                    'cli.Do("del", checkpoint.BisyncFrontierKey(checkpointName))'],
+                       'resolveBisyncCheckpointNameWithClient': ['checkpoint.ResolveOrCreateBisyncCheckpointName(cli, ids)',
+                                                                 'checkpoint.SaveBisyncNamespaceMode(cli, cpName, desiredMode)',
+                                                                 'checkpoint.SaveBisyncNamespaceMode(cli, cpName, currentMode)',
+                                                                 'checkpoint.SaveBisyncNamespaceMode(cli, cpName, desiredMode)',
+                                                                 'checkpoint.SaveBisyncNamespaceMode(cli, cpName, desiredMode)',
+                                                                 's.seedBisyncNamespace(cli, newCheckpointName, desiredMode, seed)',
+                                                                 'checkpoint.SetCheckpointHash(cli, ids[0], newCheckpointName)',
+                                                                 'checkpoint.DelCheckpointHash(cli, cpRunID)',
+                                                                 's.cleanupBisyncNamespace(cli, cpName, currentMode, recoverySlots)'],
+                       'seedBisyncNamespace': ['checkpoint.SetCheckpoint(cli, &checkpoint.CheckpointInfo{ Key: checkpointName, RunId: seed.RunID, Offset: '
+                                               'seed.Offset, Version: config.Version, })',
+                                               'checkpoint.SaveBisyncFrontierSnapshot(cli, checkpoint.BisyncFrontierKey(checkpointName), '
+                                               'seed.FrontierSnapshot())',
+                                               'cli.Do("hset", args...)',
+                                               'checkpoint.SaveBisyncNamespaceMode(cli, checkpointName, mode)'],
+                       'setCheckpoint': ['checkpoint.SetCheckpoint(cli, checkpointKv)']},
+ 'c13_txn_batcher_sites': ['syncer/bisync.go:newBisyncTxnBatcher:conn.NewTxnBatcher()']}
+
 PROP = {
-    "lean_modules": ["GunYu.Props.C13"],
+    "lean_modules": ["GunYu.Props.C13", "GunYu.Props.C13Names"],
     "audit_namespaces": ["GunYu.Props.C13"],
     "required_theorems": [
         "GunYu.Props.C13.mirrored_recognised",
@@ -35,11 +208,21 @@ PROP = {
         "GunYu.Props.C13.exactly_once_needs_exact_restarts",
         "GunYu.Props.C13.drain_reaches_global",
         "GunYu.Props.C13.D31_counterexample",
+        "GunYu.Props.C13.generated_names_valid",
+        "GunYu.Props.C13.resolved_names_generated",
+        "GunYu.Props.C13.tool_writers_in_vocabulary",
+        "GunYu.Props.C13.no_loop_generated_names",
+        "GunYu.Props.C13.no_loop_resolved_names",
+        "GunYu.Props.C13.reserved_traffic_quiet",
+        "GunYu.Props.C13.cleanup_marker_in_shared_del_echoes",
     ],
     "gens": ["c18", "c10"],
     "expected_facts": {
         "bisync_syncer_predicates": SYNCER_PREDICATES,
         "bisync_key_predicates": KEY_PREDICATES,
+        "bisync_cpname_body": ('{ buf := make([]byte, 12) if _, err := rand.Read(buf); err != nil { return "", err } '
+                               'return fmt.Sprintf("%s:%x", BisyncCheckpointKeyPrefix, buf), nil }'),
+        **C13_WRITER_FACTS,
     },
     "harness": [{"name": "C13", "pkg": "./syncer/", "test": "TestVerifC13"}],
     "driver": "drv_C13",
@@ -57,7 +240,17 @@ PROP = {
             "expiry visits incl. marker keys, link steps, restarts of either link (rewind to the last committed unit, also once in the drain; in 1/3 of the histories connection cuts inside the real loops and resume points from the real StartPoint, fresh or same process), snapshot units, bookkeeping), then a drain. Monitors: nothing the tool wrote comes back "
             "as a unit or halts the opposite link; every vouched client/expiry block comes out; each applied exactly once; units committed during "
             "the drain <= pending client blocks; commit = one MULTI of marker + business + record(+index); every stand-alone request the tool "
-            "issues has a form in the model. distinct_nontrivial is not used (histories are compared whole)",
+            "issues has a form in the model. (5) checkpoint names: 200 calls of the real NewBisyncCheckpointName vs the Lean newCpName (the random bytes read back from "
+            "the name), and 60 sequences of 1-5 starts against one target double through the real resolveBisyncCheckpointNameWithClient (namespace created / read back / "
+            "recovery format switched, new run id with the old one second), config.CheckpointKey and choseKeyInSlots names, each followed by the real UpdateCheckpoint: the "
+            "names and the checkpoint hash afterwards vs the Lean runStarts. (6) recovery-format switch inside the closed loop (1/3 of the histories without cuts end with "
+            "it, in half of them a day after the link's last commit; corpus lines 'Q<S>'): the real resolveBisyncCheckpointNameWithClient on the link's target double - seed of "
+            "the new namespace, hash repoint, cleanupBisyncNamespace of the old one - every request executed at the destination site and met by the opposite link's real parser "
+            "(found D38); the other half of those epilogues is a FULLRESYNC on one link while the other runs (corpus 'F<S>'): the real RedisOutput.ResetStartPoint (DelCheckpoint per id, "
+            "purgeBisyncRecoveryState, DEL <latest> per slot). (7) the tool's high-availability traffic on its INPUT Redis (registry SET … EX / DEL, election script effects SET EX / EXPIRE / "
+            "DEL on /redis-gunyu/… keys, 2 % of the events, corpus 'H<S>:<cmd>'), keys with an expiry, lazy expiry ahead of the SET inside MULTI: nothing of it may come out as a unit. "
+            "The names op carries INPUTS only (ids, random bytes, desired recovery family): whether a start switches the format and what UpdateCheckpoint relabels / drops is computed by the "
+            "model (runFull). distinct_nontrivial is not used (histories are compared whole)",
     "trusted": ["`propagate` (Model/BisyncSite.lean): transcription of what a Redis master writes to its replication stream — PX/EX->PXAT, "
                 "(P)EXPIRE(AT)->PEXPIREAT, RESTORE ttl->ABSTTL, no-op commands omitted, DEL/UNLINK of a key found expired propagated ahead of the "
                 "command that touched it (inside the same MULTI/EXEC), Redis>=7 and older MULTI/EXEC propagation; quantified over the 8 combinations "
@@ -75,20 +268,48 @@ PROP = {
                     "link step = the parser reads one whole block and the unit is committed before the next is read; the real loops pipeline and (parallel mode) reorder "
                     "across lanes — tied by the closed-loop histories running the real loops, not by the model",
                     "command names are ASCII (Go's Unicode case folding outside the model)",
-                    "parser, commit order, predicates tied by correspondence; key constructors, infix literals, TTL regenerated; predicate bodies compared with expectation"],
-    "partial": ["KNOWN FINDING D31 (known_findings.d/C13.json): incremental bisync replay commits every unit in the connection's database (0) whatever database "
+                    "parser, commit order, predicates tied by correspondence; key constructors, infix literals, TTL regenerated; predicate bodies compared with expectation",
+                    "the checkpoint hash of a target holds names the tool stored (HashGen, the empty hash of a fresh target in particular): clients stay out of redis-gunyu-checkpoint* "
+                    "(ClientOK); given that, every name a start reads back is a generated one (resolved_names_generated) - no longer assumed per name",
+                    "the inventory of target writers (Proofs/BisyncWriters.lean Writer; ResetStartPoint added after the round-4 review) is complete for the bidirectional path: pinned by the "
+                    "source facts c13_all_writers (EVERY function under syncer/, pkg/redis/checkpoint, cmd/, pkg/cluster, pkg/redis that sends a literal non-read command or calls one that does, "
+                    "as shapes Do(\"del\"×1) / Helper(): a NEW writer, another command, arity or helper changes the fact), c13_target_writes (full write calls of 23 procedures in source order), c13_txn_batcher_sites (one NewTxnBatcher call site: newBisyncTxnBatcher), c13_multi_put_sites + c13_aof_dispatch (literal MULTI / EXEC "
+                    "only on the plain path, not reached with bidirectional sync on), c13_first_put (marker SET first in both unit-commit functions), c13_cphash_writes, c13_localcheckpoint; "
+                    "a write call added anywhere else (a new procedure) is seen only by the closed-loop monitor unmodelled-bookkeeping-traffic / bookkeeping-inside-multi when a history runs it"],
+    "partial": ["FALSE ALARM repaired (round-4 review, seeds 41 quick / 42 thorough on the unchanged tree: foreign-block-suppressed + a c13 world DIFF): the harness injected a frontier "
+                "snapshot with an invented numbering (seq 1 at the read position) into the link's own namespace - not a state the tool produces - and judged a block the real StartPoint "
+                "moved past although an earlier life had committed it. Now the injected frontier is the one the process has reported (what flush saves), a block counts as suppressed only if "
+                "it was NEVER committed, and a start point ahead of the read position over units of an earlier life is not taken (the model's restart resumes at a block already reached; "
+                "counted real_restart_ahead_over_units_of_an_earlier_life_*)",
+                "HA registry / election traffic: exercised in the closed loop and proved quiet (reserved_traffic_quiet: any block whose every table-resolved key lies under a withheld "
+                "prefix, lazy-expiry MULTI included); it is Ev.toolRaw in the world model, i.e. outside GoodEvents - the world theorems do not range over it, the block-level theorem and the "
+                "histories do. checkSyncDelay's SET of the configured probe key on the input Redis is a client-like write by design (forwarded once, mirrored never)",
+                "KNOWN FINDING D31 (known_findings.d/C13.json), re-examined in session 4 and NOT repaired: the dispatch half (SELECT <db> behind the marker, SELECT 0 before the record, "
+                "inside the unit's MULTI) is small, but the resume side IS affected - a resumed parser starts with currentDB = -1 (counter db_of_unit_parsed_from_resume_offset_-1) and a "
+                "partial resynchronisation repeats no SELECT, so the database must travel in the commit record, the frontier snapshot, rebuild, coordinator, namespace seed, start point, fast "
+                "path (about 15 sites inside functions C14 and C17 transcribe): a coordinated change of three properties, and the dispatch half alone would be right until the first restart "
+                "inside a non-zero database and then silently wrong in two databases. Incremental bisync replay commits every unit in the connection's database (0) whatever database "
                 "it was written in; model and theorems have one keyspace per site, i.e. they hold per database only where the client writes are in database 0. The full "
                 "statement with databases (applied_in_source_db_stmt: every unit is committed in the database its commands were written in) is stated and REFUTED in Lean "
                 "(D31_counterexample, decide-checked: SELECT 3; SET k0 v => one unit, no commit transaction of any kind selects a database)",
                 "the world theorems range over client commands with NO argument under a reserved prefix (ClientOK), i.e. a value equal to a control KEY is excluded there "
                 "(marker JSON values are admitted); the block-level theorem foreign_never_suppressed covers such values (hypothesis on keys + first argument only)",
-                "bookkeeping_skipped covers stand-alone requests (how the code issues every one of them: pinned by the bookkeeping-inside-multi monitor); a MULTI block of "
-                "redis-gunyu-bisync: keys without a marker would NOT be skipped (model event toolRaw reproduces the echo)",
+                "CLOSED (was: a MULTI block of redis-gunyu-bisync: keys without a marker would not be skipped - can the tool emit one?): YES, it could - D38, found by writing the "
+                "inventory of target writers: cleanupBisyncNamespace named the marker (the only control key with an expiry) in one DEL with the latest / index keys; with the marker expired "
+                "but not reaped a Redis >= 7 master propagates MULTI, DEL marker, DEL marker latest index, EXEC; reproduced on the real code by the closed loop, repaired in /repo b5f636f, "
+                "witness in Lean cleanup_marker_in_shared_del_echoes. For the repaired code tool_writers_in_vocabulary / no_loop_generated_names DERIVE that every request of every modelled "
+                "writer is a stand-alone request of the vocabulary (Ev.toolRaw does not occur); what remains assumed is that the inventory is complete (assumptions) and, for the marker's own "
+                "DEL, that Redis propagates a single-key DEL on an expired key as the one expiry DEL / UNLINK (propagate, trusted)",
                 "CLOSED (was: BookClean assumed per event): bookclean_derived / no_loop_always / no_loop_no_false_suppression range over event lists whose events satisfy EvOK' — "
                 "a condition on each event ALONE — from two sites holding ANY data in which no namespace key other than a marker key carries an expiry (NsTtl; empty sites in "
                 "particular), and derive BookClean from the invariant (only the first argument of SET/(P)EXPIRE(AT)/RESTORE can gain an expiry: frame lemma over all 12 propagate "
-                "families; key-form lemmas). What EvOK' still asks: checkpoint names brace-free (as NewBisyncCheckpointName makes them; also for the names inside journal/index/latest "
-                "bookkeeping requests), snapshot commands with their first argument outside the namespace (the snapshot filter withholds reserved keys, C10), bookkeeping requests "
+                "families; key-form lemmas). NARROWED, stated exactly: no_loop_generated_names REPLACES the hypothesis lbrace ∉ cp by the stronger GenCp cp "
+                "and, for single bookkeeping events, Valid ∧ Issued by the stronger FromTool; what it adds is that a whole run of a writer procedure needs only Writer.Ok (its requests' Valid ∧ Issued "
+                "are derived); no_loop_resolved_names then discharges GenCp for names that ANY sequence of starts resolved from a hash of generated names (HashGen: an assumption on the target, "
+                "true of a fresh one). Ev.toolRaw stays excluded BY HYPOTHESIS - that the tool never writes outside the vocabulary is the completeness of the inventory (facts), not a theorem. "
+                "Writer.Ok assumes that the chunks of a clean-up are latest / index / journal keys of the namespace: the journal chunk is what the target's index ZSETs return "
+                "(loadBisyncCommitRecordKeys), i.e. an assumption on target state not derived from dispatchBisyncUnit's ZADD. One name per link: a history old-name ++ switch ++ new-name is an "
+                "instance of no theorem and of no run (the link's life ends at the switch / FULLRESYNC). What EvOK' (EvGen) still asks: snapshot commands with their first argument outside the namespace (the snapshot filter withholds reserved keys, C10), bookkeeping requests "
                 "other than a marker's expiry (that is Redis's doing: Ev.expire), expiry visits not on redis-gunyu-checkpoint* / /redis-gunyu* keys; client commands with NO argument "
                 "under a reserved prefix (ClientOK, stronger than 'no key'); exactly_once_and_quiesce (GoodRun, BookClean assumed, no restarts) is kept unchanged",
                 "RESTARTS, stated precisely. Ev.restart src p seq resumes at ANY block p already reached (p <= pos), with the unit numbering the start point gives. "
@@ -111,6 +332,10 @@ PROP = {
                 "the closed-loop world is a STANDALONE pair (vfc13NewWorld builds both outputs with cluster=false): in cluster mode the parser is covered by the parse ops "
                 "and the commit shape / routing by C18, but no history runs the real loops against a cluster target (lane routing unit.Slot % lanes, "
                 "execBisyncRdbGlobalUnit are outside C13's loop); the two links are two syncers (input names in-A / in-B, run ids runid-A / runid-B)",
+                "EvOK' / EvGen ask of a snapshot unit that the first argument of its commands lies outside the namespace, justified by the snapshot filter (C10). That filter tests the "
+                "SOURCE key (rdbReplayBisync: isBisyncNamespaceKey(e.Key)) while with replaceHashTag the unit is written under the key with its first brace pair removed: a source key such as "
+                "'{redis-gunyu-bisync:}<cp>:latest:{t}' passes the filter and is replayed INTO the namespace. Read from the code, not reproduced; no loop and no suppression follows (the unit's block "
+                "is marker-led), but for such keys the snapshot condition is an assumption, not a consequence (reported to the C20 owner)",
                 "snapshot phase: snapshot units (1-150 commands, the >64 ones counted) are sent by the real execBisyncRdbUnit and enter the closed loop as the block the "
                 "target received (monitors: one MULTI, marker first, no block without marker); how buildBisyncRdbReplayUnit expands a value into commands is C20 / C18",
                 "drain_reaches is an existence statement (there IS a finite drain ending Settled, after which link steps are no-ops); that EVERY fair schedule drains "
@@ -135,7 +360,11 @@ MANIFEST = {
             "that resume at ANY block already reached (also before the last committed unit): no unit is ever built from what the tool wrote, every consumed client block is "
             "committed at least once with its commands, BookClean derived (bookclean_derived) instead of assumed; (no_loop_no_false_suppression) exactly once and quiescence when "
             "every restart resumes at or behind the last committed unit (sync mode) — the unconditional statement is written out and refuted (exactly_once_needs_exact_restarts); "
-            "(D31_counterexample) the statement with databases is refuted: the one known exception. Tied to the code by differential correspondence of the predicates, the parser, the propagation double and whole closed-loop "
+            "(D31_counterexample) the statement with databases is refuted: the one known exception; (generated_names_valid, resolved_names_generated) checkpoint names are brace-free "
+            "and under the reserved prefix because of how the tool makes and stores them, a name read back from the checkpoint hash included; (tool_writers_in_vocabulary, "
+            "no_loop_generated_names) every request of every modelled target writer is a stand-alone bookkeeping request that the opposite link passes over, so the no-loop theorem "
+            "holds over generated names (GenCp, discharged by no_loop_resolved_names for names that starts resolve) and whole writer procedures; (reserved_traffic_quiet) the tool's registry / "
+            "election traffic under /redis-gunyu is never forwarded; (cleanup_marker_in_shared_del_echoes) the one writer request that was not - repaired D38. Tied to the code by differential correspondence of the predicates, the parser, the propagation double and whole closed-loop "
             "histories through the real parser/commit code.",
     "note": "trusted: Lean kernel, the `propagate` transcription of Redis's propagation rewrites, extractor, harness doubles; the global theorems assume "
             "nothing about states (event-local conditions only); exactly-once under restarts is claimed for exact (sync-mode) restarts only; databases are the known exception (D31)",
